@@ -105,7 +105,7 @@ func init() {
 							return true
 						}
 						for _, side := range []ast.Expr{be.X, be.Y} {
-							if lit, ok := side.(*ast.BasicLit); ok && lit.Kind == token.INT {
+							if lit, ok := side.(*ast.BasicLit); ok && lit.Kind == token.INT && !strings.HasPrefix(lit.Value, "0x") && !strings.HasPrefix(lit.Value, "0X") { // hex literals are byte classes, not size limits
 								if v, err := strconv.ParseInt(lit.Value, 0, 64); err == nil && v >= 50 {
 									l, rr := exprText(r.Fset, be.X), exprText(r.Fset, be.Y)
 									if x, ok := be.X.(*ast.BasicLit); ok {
